@@ -97,9 +97,20 @@ ENUMS = {"RepeatMode", "AlignmentMode"}
 IGNORED_CALLS = {"argcheck"}
 
 
+class _Return(Exception):
+    def __init__(self, value):
+        self.value = value
+
+
+# module-level helper functions of the constructors' module (name -> FunctionDef); a call to one of them is interpreted by
+# running its body over the same domain (set by the rule module before the laws are evaluated)
+HELPERS: Dict[str, ast.FunctionDef] = {}
+
+
 class Interp:
     def __init__(self, fn_node: ast.FunctionDef, args: Dict[str, Any], where: str):
         self.fn = fn_node
+        self.depth = 0
         self.env: Dict[str, Any] = dict(args)
         self.where = where
         self.create: Optional[Dict[str, Any]] = None
@@ -263,6 +274,19 @@ class Interp:
                 if e.func.attr in recv.methods:
                     return recv.methods[e.func.attr]
                 return Sym("%s.%s()" % (recv.name, e.func.attr))
+        if isinstance(e.func, ast.Name) and e.func.id in HELPERS and self.depth < 2 and not e.keywords:
+            h = HELPERS[e.func.id]
+            formals = [a.arg for a in h.args.posonlyargs + h.args.args]
+            if len(formals) == len(e.args):
+                sub = Interp(h, {p: self.ev(a) for p, a in zip(formals, e.args)}, "%s -> %s" % (self.where, h.name))
+                sub.depth = self.depth + 1
+                try:
+                    sub.block(h.body)
+                except _Return as r:
+                    self.notes.extend(sub.notes)
+                    self.assumed.extend(sub.assumed)
+                    return r.value
+                return None
         raise AnalysisError("%s: call outside the understood fragment: %s" % (self.where, ast.unparse(e)[:80]))
 
     CREATE_FORMALS = ["who", "design", "crossings", "crossing_sustain_counts", "crossing_weights", "constraints",
@@ -349,6 +373,10 @@ class Interp:
                 self._bind(st.target, x)
                 self.block(st.body)
             return
+        if isinstance(st, ast.Return) and self.depth > 0:
+            raise _Return(self.ev(st.value) if st.value is not None else None)
+        if isinstance(st, ast.Expr) and isinstance(st.value, ast.Constant) and isinstance(st.value.value, str):
+            return          # docstring
         if isinstance(st, ast.Raise):
             raise Refusal(ast.unparse(st.exc)[:120] if st.exc else "raise")
         if isinstance(st, (ast.Pass, ast.ImportFrom, ast.Import)):
